@@ -15,6 +15,7 @@ import (
 	"os"
 	"os/exec"
 	"path/filepath"
+	"regexp"
 	"runtime"
 	"sort"
 	"strconv"
@@ -122,7 +123,8 @@ func build(tag string) string {
 	out := filepath.Join(verifDir, ".build", "sim-"+tag+".test")
 	_ = os.MkdirAll(filepath.Dir(out), 0o755)
 	// the module needs /repo's go.sum entries; keep ours a superset
-	cmd := exec.Command("go1.26.8", "test", "-c", "-tags", "verif", "-o", out, ".")
+	overlay := makeOverlay(tag)
+	cmd := exec.Command("go1.26.8", "test", "-c", "-tags", "verif", "-overlay", overlay, "-o", out, ".")
 	cmd.Dir = filepath.Join(verifDir, "sim")
 	cmd.Env = goEnv()
 	var buf bytes.Buffer
@@ -131,6 +133,58 @@ func build(tag string) string {
 		die(2, "BUILD FAILED (harness trouble, not a violation):\n%s", buf.String())
 	}
 	return out
+}
+
+// autoYieldFiles get a scheduling point inserted after every non-deferred Unlock()/RUnlock() at build time
+// (go build -overlay; /repo itself is not touched). A change that opens a new check-then-act gap between two
+// critical sections is thereby explorable by the cooperative scheduler even though nobody placed a yield there.
+var autoYieldFiles = []string{
+	"pkg/sync/map.go", "pkg/cache/cache.go", "net/client/limitParallelRequests/limitParallelRequests.go",
+	"udp/client/mutexmap.go", "net/client/receivedMessageReader.go", "mux/router.go",
+}
+
+var unlockRe = regexp.MustCompile(`^(\s*)[A-Za-z0-9_.\[\]()]+\.(RUnlock|Unlock)\(\)\s*$`)
+
+func makeOverlay(tag string) string {
+	dir := filepath.Join(verifDir, ".build", "overlay-"+tag)
+	_ = os.RemoveAll(dir)
+	_ = os.MkdirAll(dir, 0o755)
+	repl := map[string]string{}
+	for i, rel := range autoYieldFiles {
+		srcPath := filepath.Join("/repo", rel)
+		b, err := os.ReadFile(srcPath)
+		if err != nil {
+			continue
+		}
+		src := string(b)
+		if !strings.Contains(src, "pkg/verifhook\"") {
+			continue // only files that already import the hook package
+		}
+		lines := strings.Split(src, "\n")
+		var out []string
+		n := 0
+		for ln, l := range lines {
+			out = append(out, l)
+			if m := unlockRe.FindStringSubmatch(l); m != nil && !strings.Contains(l, "defer") {
+				n++
+				out = append(out, fmt.Sprintf("%sverifhook.Yield(\"auto.unlock\", %d)", m[1], (i+1)*10000+ln+1))
+			}
+		}
+		if n == 0 {
+			continue
+		}
+		dst := filepath.Join(dir, strings.ReplaceAll(rel, "/", "__"))
+		if err := os.WriteFile(dst, []byte(strings.Join(out, "\n")), 0o644); err != nil {
+			die(2, "cannot write overlay file: %v", err)
+		}
+		repl[srcPath] = dst
+	}
+	ov := filepath.Join(dir, "overlay.json")
+	b, _ := json.Marshal(map[string]any{"Replace": repl})
+	if err := os.WriteFile(ov, b, 0o644); err != nil {
+		die(2, "cannot write overlay: %v", err)
+	}
+	return ov
 }
 
 func repoTree() string {
